@@ -166,3 +166,116 @@ Fixpoint model_rounds (cs : list tchange) (l : list rspec) : list round :=
       mkRound (map (model_wobs (rs_gen s) (rs_tried s)) (rs_writes s)) (map (model_robs cs') (rs_readers s))
         :: model_rounds cs' r
   end.
+
+(* ------------------------------------------------------------------------------------------ one write racing one ACL record
+   (harness: cmd/c05/ilv.go).  ONE encrypted AddContent through an open tree while ONE pending ACL record is applied to
+   the writer's ACL list at crossing [i_k] of the ACL lock (a point at which the writer does not hold the lock, so that
+   another goroutine can win it).  The symbolic model has no lock structure: whatever the interleaving, a stored change
+   is  SEnc (treeKey (K id)) data  with id = the generation NAMED in the change.  The interleaved history is presented
+   to it as a sequential one: the record is sequenced BEFORE or AFTER the write according to the ACL head the OBSERVED
+   change names ([i_head]); the generation at that head is what the change must name and open with. *)
+Record iobs := mkI {
+  i_kind : N;                (* kind of the injected record (informational; the harness's numbering) *)
+  i_k : N;                   (* crossing index at which the record is injected *)
+  i_fired : bool;            (* the crossing was reached during AddContent (false: the record arrived after the call) *)
+  i_gen0 : rid;              (* the ACL's current generation at the head before the record *)
+  i_gen1 : rid;              (* ... after the record *)
+  i_can0 : bool;             (* the writer may write at the head before the record *)
+  i_can1 : bool;             (* ... after the record *)
+  i_head : N;                (* ACL head NAMED by the stored change: 0 = the head before the record, 1 = the record, other = neither *)
+  i_write : option wobs;     (* the racing AddContent; None = it returned an error and stored nothing.
+                                [w_gen] = the generation at the ACL head the change names, as looked up by the harness *)
+  i_retry : option wobs;     (* after a failed racing write: the same account's sequential write after the record *)
+  i_pre : list round;        (* what happened in the tree before the race *)
+  i_readers : list robs      (* every account's reading after the record reached every list and the changes every tree *)
+}.
+
+Definition opt_list {A} (o : option A) : list A := match o with Some a => [a] | None => [] end.
+
+(* the interleaved history as a sequential one *)
+Definition ilv_rounds (x : iobs) : list round :=
+  i_pre x ++ [mkRound (opt_list (i_write x) ++ opt_list (i_retry x)) (i_readers x)].
+
+Definition named_gen (x : iobs) : option rid :=
+  if i_head x =? 0 then Some (i_gen0 x) else if i_head x =? 1 then Some (i_gen1 x) else None.
+
+(* sequencing, over OBSERVED data only.  A stored change names one of the two heads (the record's only if the record
+   really landed during the call) and [w_gen] is the generation at THAT head - so [wobs_ok] below demands that the change
+   names and opens with the generation of the head it names: a change labelled with the new head / generation but
+   encrypted under the retired key fails, it is not explained away by sequencing it before the record.  A failed
+   AddContent is acceptable when the record landed during the call or the writer had no right to write; an account that
+   may write after the record then writes successfully (sequentially), under the generation after the record. *)
+Definition ilv_seq_ok (x : iobs) : bool :=
+  match i_write x with
+  | Some w =>
+      match named_gen x with
+      | Some g => (w_gen w =? g) && ((i_head x =? 0) || i_fired x)
+      | None => false
+      end
+      && match i_retry x with None => true | Some _ => false end
+  | None =>
+      (i_fired x || negb (i_can0 x))
+      && match i_retry x with
+         | Some w => i_can1 x && (w_gen w =? i_gen1 x)
+         | None => negb (i_can1 x)
+         end
+  end.
+
+Definition spec_C05_ilv (x : iobs) : bool := ilv_seq_ok x && spec_C05_open (ilv_rounds x).
+
+(* correspondence: the model writes only with a permission at the position the write is sequenced at, and what it
+   stores / reads is the cache-free symbolic tree of the sequential presentation *)
+Definition ilv_model_ok (x : iobs) : bool :=
+  match i_write x with
+  | Some _ => if i_head x =? 0 then i_can0 x else if i_head x =? 1 then i_can1 x else false
+  | None => true
+  end
+  && open_tree_model_ok (ilv_rounds x).
+
+(* what the model presents for a race: the scheduler's decision is the only freedom *)
+Inductive idec := IBefore | IAfter | IFail.
+
+Record ispec := mkIS {
+  is_kind : N; is_k : N; is_fired : bool;
+  is_gen0 : rid; is_gen1 : rid; is_can0 : bool; is_can1 : bool;
+  is_dec : idec;
+  is_idx : N;                                    (* number of the racing change *)
+  is_retry_idx : N;                              (* number of the sequential change after a failed racing write *)
+  is_author : acct;
+  is_tried : list rid;
+  is_pre : list rspec;
+  is_readers : list (acct * N * list rid)
+}.
+
+(* which decisions the model allows *)
+Definition is_valid (s : ispec) : bool :=
+  match is_dec s with
+  | IBefore => is_can0 s
+  | IAfter => is_fired s && is_can1 s
+  | IFail => is_fired s || negb (is_can0 s)
+  end.
+
+(* the race as one more sequential round *)
+Definition is_last (s : ispec) : rspec :=
+  match is_dec s with
+  | IBefore => mkRS (is_gen0 s) (is_tried s) [(is_idx s, is_author s)] (is_readers s)
+  | IAfter => mkRS (is_gen1 s) (is_tried s) [(is_idx s, is_author s)] (is_readers s)
+  | IFail => mkRS (is_gen1 s) (is_tried s) (if is_can1 s then [(is_retry_idx s, is_author s)] else []) (is_readers s)
+  end.
+
+Fixpoint content_after (cs : list tchange) (l : list rspec) : list tchange :=
+  match l with
+  | [] => cs
+  | s :: r => content_after (cs ++ written (rs_gen s) (rs_writes s)) r
+  end.
+
+Definition model_ilv (s : ispec) : iobs :=
+  let cs := content_after [] (is_pre s) in
+  let last := is_last s in
+  let ws := map (model_wobs (rs_gen last) (rs_tried last)) (rs_writes last) in
+  mkI (is_kind s) (is_k s) (is_fired s) (is_gen0 s) (is_gen1 s) (is_can0 s) (is_can1 s)
+      (match is_dec s with IBefore => 0 | _ => 1 end)
+      (match is_dec s with IFail => None | _ => hd_error ws end)
+      (match is_dec s with IFail => hd_error ws | _ => None end)
+      (model_rounds [] (is_pre s))
+      (map (model_robs (cs ++ written (rs_gen last) (rs_writes last))) (rs_readers last)).
